@@ -125,13 +125,21 @@ def robust(run, attempts=3):
     """Timing-dependent scenario: `run(scale)` returns its violations.  A violation counts only if it recurs on every
     attempt, each later attempt with more generous allowances and after a pause: a defect of the engine's logic recurs,
     a scheduling hiccup of a loaded machine does not."""
+    # three confirmed findings decide the check; exploring the remaining scenarios of a thoroughly broken engine (each one
+    # timing out three times) would only make the run long
+    if CONFIRMED[0] >= 3:
+        return []
     last = []
     for a in range(attempts):
         last = run(load_factor() * (1 + a))
         if not last:
             return []
         time.sleep(0.4 * (a + 1))
+    CONFIRMED[0] += 1
     return last
+
+
+CONFIRMED = [0]
 
 
 def legal_queries(driver, queries):
@@ -368,6 +376,9 @@ SCHEDULES = [
     ("go-refused-then-stop-then-go", {}, [(0, "go infinite"), (60, "go depth 1"), (30, "stop"), (150, "go depth 1")], 2),
     ("ucinewgame-and-setoption-during-search", {}, [(0, "go infinite"), (50, "ucinewgame"), (20, "setoption name Hash value 1"), (30, "stop"), (150, "go depth 1")], 2),
     ("ucinewgame-then-go-during-search", {}, [(0, "go infinite"), (50, "ucinewgame"), (30, "go depth 1"), (30, "stop")], 1),
+    # stop, then at once a new go, while the stopped search thread has not even looked at the flag yet: the stop must still hold
+    ("stop-then-go-before-the-thread-has-started", {"search_entry": 300}, [(0, "go infinite"), (20, "stop"), (0, "go depth 1")], 2),
+    ("stop-then-go-with-slow-first-iteration", {"first_iteration_done": 250}, [(0, "go infinite"), (40, "stop"), (0, "go depth 1")], 2),
     # lines the parser rejects (no effect, no command_done label) must not swallow what follows them
     ("rejected-line-during-search", {}, [(0, "go infinite"), (50, "debug on"), (30, "stop")], 1),
     ("rejected-lines-then-go", {}, [(0, "ponderhit"), (20, "go depth 1"), (300, "xyzzy 1 2"), (0, "go wtime"), (20, "go depth 1")], 2),
@@ -504,6 +515,8 @@ def c10_extra(tier, seed, ctx):
     for fen in fens:
         for name, delays, script, expected in SCHEDULES:
             for rep in range(reps):
+                if len(violations) >= 3:
+                    continue          # three confirmed findings decide the check
                 evals += 1
                 distinct.add((fen, name))
                 # the injected delays force the intended order on a quiet machine; on a loaded one a run can realise another
@@ -516,6 +529,7 @@ def c10_extra(tier, seed, ctx):
                     retried += 1
                     time.sleep(0.4 * (attempt + 1))
                 violations += v
+                CONFIRMED[0] += 1 if v else 0
                 model_mismatches += mm
                 queries += q
                 conc_cases.append(case)
@@ -756,6 +770,38 @@ def c15_extra(tier, seed, ctx):
         evals += 1
         distinct.add("EOF after " + " / ".join(script))
         violations += robust(eof_in_search)
+
+    # words other engines understand at the console (none is a UCI command of this engine today): whatever the engine does with
+    # them — reject them, or one day implement them — it must stay alive and responsive, also with a warm cache whose best line repeats
+    CONSOLE = ["d", "eval", "perft 2", "go perft 2", "bench", "debug on", "debug off", "register later", "ponderhit", "flip", "help", "display", "print",
+               "fen", "moves", "undo", "new", "xboard", "protover 2", "compiler", "export_net", "hashfull", "tt", "pv", "hash", "board", "show", "info", "?"]
+    for fen, depth in (("6k1/6p1/8/7Q/8/2q4P/1r4PK/8 w - - 0 1", 4), ("8/8/8/8/8/5k2/4q3/7K b - - 0 1", 5), (SEEDS[0], 3)):
+        def console(scale, fen=fen, depth=depth):
+            v = []
+            eng = Engine(E)
+            eng.send(f"position fen {fen}")
+            eng.send(f"go depth {depth}")
+            if eng.wait_for(lambda l: l.startswith("bestmove"), 30.0 * scale) is None:
+                eng.kill()
+                return [viol("C15", "no-bestmove", f"fen=[{fen}] go depth {depth}")]
+            for w in CONSOLE:
+                if w == "bench":
+                    continue          # a real bench inside a session is C16's business (minutes)
+                idx = len(eng.lines())
+                eng.send(w)
+                eng.send("isready")
+                if eng.wait_for(lambda l: l == "readyok", 4.0 * scale, idx) is None:
+                    v.append(viol("C15", "not-alive-after-junk", f"fen=[{fen}] after `go depth {depth}` the line [{w}] is not followed by readyok; alive={eng.p.poll() is None} stderr={[l for _, l in eng.errlines()][-2:]}"))
+                    eng.kill()
+                    return v
+            eng.send("quit")
+            rc, dt = eng.close(3.0 * scale)
+            if rc != 0:
+                v.append(viol("C15", "quit-not-honoured", f"console words after a search: exit {rc} after {dt:.1f}s"))
+            return v
+        evals += len(CONSOLE)
+        distinct.add("console words after a search of " + fen)
+        violations += robust(console)
 
     # quit while an unbounded search is running
     def quit_in_search(scale):
